@@ -998,6 +998,9 @@ class Plan:
                 return
         self.ev(op="setter", i=i, k=kind, args=args)
 
+    def deny(self, pid):
+        self.ev(op="perm", pid=pid, e=self.rng.choice(["EPERM", "EACCES"]))
+
     def effect_call(self, i):
         if self.rng.random() < 0.6:
             self.rand_signal(i)
@@ -1247,6 +1250,114 @@ def gen_history(rng, family, clk):
                     P.query(i)
         for i in range(P.nobj):
             P.ev(op="is_running", i=i)
+    elif family == "perm_paths":
+        # EPERM / EACCES from os.kill and from every setter's native call: AccessDenied(pid), exactly one attempt on the
+        # object's own incarnation with the values asked, no sticky flag; the guard still comes first on a recycled PID
+        q = rng.choice([x for x in PIDS if x != p])
+        P.ev(op="spawn", pid=p)
+        P.ev(op="new", pid=p) if rng.random() < 0.7 else P.ev(op="process_iter")
+        if rng.random() < 0.6:
+            P.ev(op="spawn", pid=q).ev(op="new", pid=q)      # bystander the kernel allows
+        if rng.random() < 0.2:
+            P.ev(op="exit", pid=p)                           # a zombie of another user
+        P.deny(p)
+        for _ in range(rng.randrange(1, 5)):
+            P.effect_call(0)
+        P.ev(op="is_running", i=0)
+        if P.nobj > 1:
+            P.effect_call(P.nobj - 1)
+        r = rng.random()
+        if r < 0.35:
+            P.ev(op="perm", pid=p, e="allow")
+            P.effect_call(0)
+        elif r < 0.8:
+            P.ev(op="reap", pid=p)
+            if rng.random() < 0.5:
+                P.effect_call(0)                             # PID free: NoSuchProcess, no attempt
+            P.tick()
+            P.ev(op="spawn", pid=p)                          # recycled, still denied
+            P.effect_call(0)
+            P.ev(op="new", pid=p) if rng.random() < 0.6 else P.ev(op="process_iter").ev(op="process_iter")
+            for i in range(P.nobj):
+                P.effect_call(i)
+            if rng.random() < 0.5:
+                P.ev(op="perm", pid=p, e="allow")
+                P.effect_call(P.nobj - 1)
+                P.effect_call(0)
+        else:
+            P.deny(p)                                        # the errno changes
+            P.effect_call(0)
+        for i in range(P.nobj):
+            P.ev(op="is_running", i=i)
+    elif family == "perm_mixed":
+        for q in PIDS[:rng.randrange(1, 4)]:
+            P.ev(op="spawn", pid=q)
+        for _ in range(rng.randrange(6, 24)):
+            r = rng.random()
+            q = rng.choice(PIDS)
+            if r < 0.08:
+                P.ev(op="spawn", pid=q)
+            elif r < 0.12:
+                P.ev(op="exit", pid=q)
+            elif r < 0.22:
+                P.ev(op="reap", pid=q).ev(op="spawn", pid=q) if rng.random() < 0.7 else P.ev(op="reap", pid=q)
+            elif r < 0.34:
+                P.deny(q) if rng.random() < 0.7 else P.ev(op="perm", pid=q, e="allow")
+            elif r < 0.42 and P.k.procs:
+                P.ev(op="process_iter")
+            elif r < 0.52:
+                P.ev(op="new", pid=q)
+            elif P.nobj:
+                i = rng.randrange(P.nobj)
+                P.effect_call(i) if rng.random() < 0.7 else P.query(i)
+        for i in range(P.nobj):
+            P.effect_call(i)
+            P.ev(op="is_running", i=i)
+    elif family == "unknown_start":
+        # OUTSIDE the hypotheses (model correspondence only): /proc/<pid>/stat unreadable → `_ident = (pid, None)`;
+        # what ==, is_running(), the guard, ppid(), create_time(), str() and process_iter() then do
+        P.ev(op="spawn", pid=p)
+        if rng.random() < 0.4:
+            P.ev(op="new", pid=p)                            # an object with a known start
+        P.ev(op="hide", pid=p, on=True)
+        P.ev(op="new", pid=p) if rng.random() < 0.7 else P.ev(op="process_iter")
+
+        def poke():
+            i = rng.randrange(P.nobj)
+            r = rng.random()
+            if r < 0.25:
+                P.ev(op="is_running", i=i)
+            elif r < 0.4:
+                P.ev(op="eq", i=i, j=rng.randrange(P.nobj))
+            elif r < 0.5:
+                P.ev(op="create_time", i=i)
+            elif r < 0.6:
+                P.ev(op="ppid", i=i)
+            elif r < 0.7:
+                P.ev(op="status", i=i)
+            elif r < 0.78:
+                P.ev(op="hash", i=i)
+            elif r < 0.86 and P.k.procs:
+                P.ev(op="process_iter")
+            else:
+                P.effect_call(i)
+        for _ in range(rng.randrange(0, 4)):
+            poke()
+        r = rng.random()
+        if r < 0.4:
+            P.ev(op="hide", pid=p, on=False)
+        if rng.random() < 0.5:
+            P.ev(op="reap", pid=p)
+            P.tick()
+            P.ev(op="spawn", pid=p)
+            if rng.random() < 0.3:
+                P.ev(op="hide", pid=p, on=rng.random() < 0.5)
+        if rng.random() < 0.5:
+            P.ev(op="new", pid=p)
+        for _ in range(rng.randrange(1, 6)):
+            poke()
+        for i in range(P.nobj):
+            P.ev(op="is_running", i=i)
     elif family == "btime0":
         # outside the hypothesis btime != 0: model correspondence only
         P = Plan(rng, 0, clk)
@@ -1305,7 +1416,8 @@ def sprinkle_oneshot(rng, h):
 
 
 FAMILIES = ["gone_path", "reuse_noquery", "reuse_zombie", "multi_recycle", "pid0", "clock_step", "coincidence",
-            "live", "mixed", "oneshot_reuse", "iter_handles", "iter_mixed", "mixed", "iter_handles", "btime0"]
+            "live", "mixed", "oneshot_reuse", "iter_handles", "iter_mixed", "mixed", "iter_handles", "btime0",
+            "perm_paths", "perm_mixed", "unknown_start", "perm_paths"]
 
 
 def well_indexed(combo):
@@ -1410,6 +1522,67 @@ def exhaustive_iter(maxlen, btime=1000):
             yield {"btime": btime, "ops": ops, "family": "exhaustive_iter", "hyp": True}
 
 
+def exhaustive_perm(maxlen, btime=1000):
+    """all well-indexed histories `spawn · Process · w`, |w| <= maxlen, over {kernel refuses PID 5 (EPERM), allows it again,
+    reap, spawn, kill(0), nice(0), is_running(0), Process(5), kill(1)} containing a refusal: every placement of a
+    permission change relative to a recycling and to the calls"""
+    p = 5
+    alphabet = [
+        {"op": "perm", "pid": p, "e": "EPERM"}, {"op": "perm", "pid": p, "e": "allow"},
+        {"op": "reap", "pid": p}, {"op": "spawn", "pid": p},
+        {"op": "signal", "i": 0, "m": "kill", "sig": 0}, {"op": "setter", "i": 0, "k": "nice", "args": [3]},
+        {"op": "is_running", "i": 0}, {"op": "new", "pid": p}, {"op": "signal", "i": 1, "m": "kill", "sig": 0},
+    ]
+    head = [{"op": "spawn", "pid": p}, {"op": "new", "pid": p}]
+    for n in range(1, maxlen + 1):
+        for combo in itertools.product(alphabet, repeat=n):
+            if not any(o.get("e") == "EPERM" for o in combo):
+                continue
+            ops = head + [dict(o) for o in combo]
+            if not well_indexed(ops):
+                continue
+            yield {"btime": btime, "ops": ops, "family": "exhaustive_perm", "hyp": True}
+
+
+def exhaustive_hidden(maxlen, btime=1000):
+    """(outside the hypotheses: model comparison only) all well-indexed histories `spawn · w`, |w| <= maxlen, over
+    {stat of PID 5 unreadable, readable, Process(5), reap, spawn, is_running(0), kill(0), ==(0,1)} containing a `hide`"""
+    p = 5
+    alphabet = [
+        {"op": "hide", "pid": p, "on": True}, {"op": "hide", "pid": p, "on": False}, {"op": "new", "pid": p},
+        {"op": "reap", "pid": p}, {"op": "spawn", "pid": p}, {"op": "is_running", "i": 0},
+        {"op": "signal", "i": 0, "m": "kill", "sig": 0}, {"op": "eq", "i": 0, "j": 1},
+    ]
+    head = [{"op": "spawn", "pid": p}]
+    for n in range(2, maxlen + 1):
+        for combo in itertools.product(alphabet, repeat=n):
+            if not any(o["op"] == "hide" and o["on"] for o in combo):
+                continue
+            ops = head + [dict(o) for o in combo]
+            if not well_indexed(ops):
+                continue
+            yield {"btime": btime, "ops": ops, "family": "exhaustive_hidden", "hyp": False}
+
+
+def exhaustive_two_pids_iter(maxlen, btime=1000):
+    """(thorough tier) all well-indexed histories of length 3..maxlen on two PIDs whose handles come from Process(5)
+    or from process_iter(): {spawn 5, spawn 7, reap 5, Process(5), process_iter(), terminate(0), terminate(1),
+    is_running(0), is_running(1), ==(0,1)} containing a process_iter() (never on an empty table)"""
+    alphabet = [
+        {"op": "spawn", "pid": 5}, {"op": "spawn", "pid": 7}, {"op": "reap", "pid": 5},
+        {"op": "new", "pid": 5}, {"op": "process_iter"},
+        {"op": "signal", "i": 0, "m": "terminate", "sig": 0}, {"op": "signal", "i": 1, "m": "terminate", "sig": 0},
+        {"op": "is_running", "i": 0}, {"op": "is_running", "i": 1}, {"op": "eq", "i": 0, "j": 1},
+    ]
+    for n in range(3, maxlen + 1):
+        for combo in itertools.product(alphabet, repeat=n):
+            if not any(o["op"] == "process_iter" for o in combo):
+                continue
+            if not well_indexed(combo) or iter_on_empty_table(combo):
+                continue
+            yield {"btime": btime, "ops": [dict(o) for o in combo], "family": "exhaustive2_iter", "hyp": True}
+
+
 def features(h, result):
     """which clauses of the properties a history exercised"""
     f = set()
@@ -1423,6 +1596,11 @@ def features(h, result):
                 f.add("call_after_oneshot_enter")
             if im.get("exc") == "ValueError":
                 f.add("value_error")
+            if any(e.get("res") for e in ie):
+                f.add("refused:" + ie[0]["res"])
+                f.add("refused")
+            if sp.get("refusal") and not sp["listed"]:
+                f.add("refusal_pending_but_recycled")
         if k == "is_running" and "bool" in sp:
             f.add("running_true" if sp["bool"] else "running_false")
         if k == "setbtime":
@@ -1433,6 +1611,10 @@ def features(h, result):
             f.add("eq_true" if sp["bool"] else "eq_false")
         if k == "new" and im.get("kind") == "exc":
             f.add("new_" + im["exc"])
+        if k == "hide" and o["on"]:
+            f.add("stat_hidden")
+        if im.get("exc") == "AccessDenied" and k not in ("signal", "setter"):
+            f.add("access_denied:" + k)
         if k == "process_iter" and im.get("kind") == "procs":
             f.add("iter")
             known = result.setdefault("_seen_handles", set())
@@ -1454,7 +1636,8 @@ def features(h, result):
     return f
 
 
-NONTRIVIAL = {"call_recycled_or_gone", "running_false", "clock_step", "eq_false", "eq_true", "value_error",
+NONTRIVIAL = {"call_recycled_or_gone", "running_false", "clock_step", "eq_false", "eq_true", "value_error", "refused",
+              "stat_hidden",
               "iter_skips_evicted_pid", "iter_handle_running_false", "iter_yields_cached_handle"}
 
 
@@ -1501,16 +1684,49 @@ def witness_corpus(clk):
         {"op": "setter", "i": 0, "k": "affinity", "args": [], "tuple": True},
         {"op": "is_running", "i": 0}, {"op": "setter", "i": 0, "k": "affinity", "args": []},
         {"op": "new", "pid": 7}, {"op": "setter", "i": 1, "k": "affinity", "args": [], "tuple": True}]}
-    return [l1, l2, l2b, it, it2, aff]
+    # permission inputs (Props/C01.lean, example "permission inputs"): refused attempts, AccessDenied, no sticky flag,
+    # the guard before the kernel on a recycled PID, delivery once allowed
+    perm = {"btime": 1000, "family": "corpus:perm-refused", "hyp": True, "ops": [
+        {"op": "spawn", "pid": 7}, {"op": "new", "pid": 7}, {"op": "perm", "pid": 7, "e": "EPERM"},
+        {"op": "signal", "i": 0, "m": "terminate", "sig": 0}, {"op": "is_running", "i": 0},
+        {"op": "setter", "i": 0, "k": "nice", "args": [5]}, {"op": "setter", "i": 0, "k": "ionice", "args": [2, 4]},
+        {"op": "setter", "i": 0, "k": "rlimit", "args": [7, 1024, 1024]}, {"op": "setter", "i": 0, "k": "affinity", "args": [0, 1]},
+        {"op": "setter", "i": 0, "k": "affinity", "args": []}, {"op": "perm", "pid": 7, "e": "EACCES"},
+        {"op": "signal", "i": 0, "m": "send", "sig": 10}, {"op": "reap", "pid": 7}, {"op": "spawn", "pid": 7},
+        {"op": "signal", "i": 0, "m": "kill", "sig": 0}, {"op": "perm", "pid": 7, "e": "allow"},
+        {"op": "signal", "i": 0, "m": "kill", "sig": 0}, {"op": "new", "pid": 7},
+        {"op": "signal", "i": 1, "m": "kill", "sig": 0}]}
+    # the characterisation witnesses of Props/C01.lean / Props/C02.lean (unreadable stat: OUTSIDE the hypotheses, the
+    # real code is compared with the model, which proves what happens): C01_unknown_start_counterexample,
+    # C02_unknown_start_counterexample
+    u1 = {"btime": 1000, "family": "corpus:unknown-start-recycled", "hyp": False, "ops": [
+        {"op": "spawn", "pid": 7}, {"op": "hide", "pid": 7, "on": True}, {"op": "new", "pid": 7}, {"op": "reap", "pid": 7},
+        {"op": "spawn", "pid": 7}, {"op": "is_running", "i": 0}, {"op": "new", "pid": 7}, {"op": "eq", "i": 0, "j": 1},
+        {"op": "signal", "i": 0, "m": "kill", "sig": 0}, {"op": "hide", "pid": 7, "on": False},
+        {"op": "signal", "i": 0, "m": "kill", "sig": 0}]}
+    u2 = {"btime": 1000, "family": "corpus:unknown-start-then-known", "hyp": False, "ops": [
+        {"op": "spawn", "pid": 8}, {"op": "hide", "pid": 8, "on": True}, {"op": "new", "pid": 8},
+        {"op": "create_time", "i": 0}, {"op": "ppid", "i": 0}, {"op": "status", "i": 0}, {"op": "hash", "i": 0},
+        {"op": "hide", "pid": 8, "on": False}, {"op": "new", "pid": 8}, {"op": "eq", "i": 0, "j": 1},
+        {"op": "create_time", "i": 0}, {"op": "eq", "i": 0, "j": 1}, {"op": "is_running", "i": 0},
+        {"op": "is_running", "i": 1}, {"op": "process_iter"}, {"op": "process_iter"}, {"op": "status", "i": 0}]}
+    u3 = {"btime": 1000, "family": "corpus:known-then-hidden", "hyp": False, "ops": [
+        {"op": "spawn", "pid": 8}, {"op": "new", "pid": 8}, {"op": "hide", "pid": 8, "on": True},
+        {"op": "create_time", "i": 0}, {"op": "ppid", "i": 0}, {"op": "status", "i": 0},
+        {"op": "is_running", "i": 0}, {"op": "signal", "i": 0, "m": "terminate", "sig": 0}, {"op": "process_iter"},
+        {"op": "is_running", "i": 1}, {"op": "eq", "i": 0, "j": 1}]}
+    return [l1, l2, l2b, it, it2, aff, perm, u1, u2, u3]
 
 
 def correspond_for(ctx, res, prop, driver_file, n_quick, n_thorough):
     impl = Impl(ctx)
     try:
-        res.rule = ("histories of simulated kernel events and psutil calls from 13 clause-directed families "
-                    "(PRNG from VERIF_SEED) + the lead witnesses + an exhaustive sweep of short histories on one PID; "
+        res.rule = ("histories of simulated kernel events (incl. permission changes: the kernel refuses a PID with EPERM/EACCES) "
+                    "and psutil calls from 16 clause-directed families "
+                    "(PRNG from VERIF_SEED) + the lead witnesses + exhaustive sweeps of short histories; "
                     "non-trivial = the history contains a signal/setter through an object whose incarnation lost "
-                    "its PID, an is_running() that must be False, a clock step, a == between objects, or a rejected argument; "
+                    "its PID, an is_running() that must be False, a clock step, a == between objects, a rejected argument, "
+                    "an OS call the kernel refused, or (outside the hypotheses, model comparison only) an unreadable stat file; "
                     "distinct = distinct op sequences")
         hists = witness_corpus(impl.clk)
         n = ctx.n(n_quick, n_thorough)
@@ -1522,6 +1738,10 @@ def correspond_for(ctx, res, prop, driver_file, n_quick, n_thorough):
         hists.extend(exhaustive_two_pids(maxlen))
         hists.extend(exhaustive_oneshot(4 if ctx.tier == "quick" else 5))
         hists.extend(exhaustive_iter(4 if ctx.tier == "quick" else 5))
+        hists.extend(exhaustive_perm(4 if ctx.tier == "quick" else 5))
+        hists.extend(exhaustive_hidden(4 if ctx.tier == "quick" else 5))
+        if ctx.tier != "quick":
+            hists.extend(exhaustive_two_pids_iter(6))
         total_lines = 0
         CH = 3000
         sampled = 0
@@ -1559,8 +1779,16 @@ def correspond_for(ctx, res, prop, driver_file, n_quick, n_thorough):
                           "reach psutil); all histories spawn·Process·w, |w| <= %d, over {enter oneshot(0), leave(0), reap, spawn, kill(0), "
                           "nice(0), ppid(0), is_running(0)} containing an enter; all well-indexed histories spawn·Process·reap·spawn·w, "
                           "|w| <= %d, over {process_iter(), is_running(0), is_running(1), reap, spawn, kill(1), ==(0,1), cpu_affinity(0, [])} "
-                          "containing a process_iter() or a cpu_affinity([]); the random families are samples"
-                          % (len(hists) - n_rand, maxlen, maxlen, 4 if ctx.tier == "quick" else 5, 4 if ctx.tier == "quick" else 5))
+                          "containing a process_iter() or a cpu_affinity([]); all well-indexed histories spawn·Process·w, |w| <= %d, over "
+                          "{kernel refuses PID 5 with EPERM, allows it, reap, spawn, kill(0), nice(0), is_running(0), Process(5), kill(1)} "
+                          "containing a refusal; (model comparison only, outside the hypotheses) all well-indexed histories spawn·w, "
+                          "2 <= |w| <= %d, over {stat of PID 5 unreadable, readable, Process(5), reap, spawn, is_running(0), kill(0), ==(0,1)} "
+                          "containing an unreadable phase%s; the random families are samples"
+                          % (len(hists) - n_rand, maxlen, maxlen, 4 if ctx.tier == "quick" else 5, 4 if ctx.tier == "quick" else 5,
+                             4 if ctx.tier == "quick" else 5, 4 if ctx.tier == "quick" else 5,
+                             "" if ctx.tier == "quick" else "; all well-indexed histories of length 3..6 over {spawn 5, spawn 7, reap 5, "
+                             "Process(5), process_iter(), terminate(0), terminate(1), is_running(0), is_running(1), ==(0,1)} containing "
+                             "a process_iter() (handles from process_iter() on two PIDs)"))
         res.extra["driver_lines"] = total_lines
         res.extra["clock_ticks"] = impl.clk
     finally:
